@@ -30,8 +30,8 @@ def _dispatch(prop, t):
             ["TLC + Json module trusted", "confectioner modelled as it behaves", "template parameters never contain braces"])
     if prop in ("C05", "C10", "C11", "C03", "C08", "C01", "C02", "C06", "C12"):
         from . import check_expr
-        fams = {"C05": ["combinators"], "C10": ["combinators", "options"], "C11": ["combinators", "options"],
-                "C03": ["combinators", "options", "presets"], "C08": ["presets"], "C01": ["caching", "presets"],
+        fams = {"C05": ["combinators"], "C10": ["combinators", "options:light"], "C11": ["combinators", "options:light"],
+                "C03": ["combinators", "options:light", "presets:light"], "C08": ["presets"], "C01": ["caching", "presets:light"],
                 "C02": ["caching"], "C06": ["combinators", "caching"], "C12": ["failing", "failing4"]}[prop]
         return check_expr.check(prop, t, fams, check_expr.RULES[prop], check_expr.ASSUME)
     if prop == "C15":
